@@ -356,7 +356,7 @@ def _solver_case(spec):
 
     time_dep = "ramp" in expr
     V, C = [], {"solver_checks": 1}
-    o = dict(solve_time=0.6, dt_init=0.005, dt_max=0.05, adaptive=False, save_every=10, field_units="mT", current_units="uA")
+    o = dict(solve_time=0.6, dt_init=0.001, dt_max=0.02, adaptive=True, save_every=10, field_units="mT", current_units="uA")
     traces = []
     for which in ("plain", "composite"):
         try:
